@@ -31,17 +31,17 @@ TICK_LIMIT = 96000
 
 
 def anchors():
-    from simfile.timing import Beat, BeatValues, TimingData
+    from ..core import pick
 
-    return {
-        "Beat.__new__": Beat.__new__,
-        "Beat.round_to_tick": Beat.round_to_tick,
-        "Beat.from_str": Beat.from_str,
-        "Beat.__str__": Beat.__str__,
-        "BeatValues.from_str": BeatValues.from_str,
-        "BeatValues.__str__": BeatValues.__str__,
-        "TimingData.__init__": TimingData.__init__,
-    }
+    return pick(
+        "simfile.timing:Beat.__new__",
+        "simfile.timing:Beat.round_to_tick",
+        "simfile.timing:Beat.from_str",
+        "simfile.timing:Beat.__str__",
+        "simfile.timing:BeatValues.from_str",
+        "simfile.timing:BeatValues.__str__",
+        "simfile.timing:TimingData.__init__",
+    )
 
 
 # ---------------------------------------------------------------- generators
